@@ -55,6 +55,14 @@ func pluginNoise(variant int) {
 			return &cPrefix{Tok: tok, Op: "%", X: right()}
 		})
 	}
+	if variant%3 == 1 {
+		// a percent sign as postfix operator, no infix operator on this builder
+		pc := parser.NewBuilder(lexer.NewBuilder())
+		pc.RegisterPostfixOperator(token.MODULO, func(tok token.Token, left ast.Expression) ast.Expression {
+			return &cPostfix{Tok: tok, Op: "%", X: left}
+		})
+		pc.Build("a = 50%\nb = a * 2").ParseProgram()
+	}
 	pb.UseStatementInterceptor(func(p *parser.Parser, next func() ast.Statement) ast.Statement { return next() })
 	pb.UseExpressionInterceptor(func(p *parser.Parser, next func() ast.Expression) ast.Expression { return next() })
 	for _, src := range []string{"let a = 5!\nb = a @ 2 + %a", "function f() { return pow(2)! }\n(f)()\n[1]", "x ! y {", "\"open"} {
